@@ -5,7 +5,8 @@
    excluded raw control characters, escaped triple quotes, all-blank block strings, braced unicode
    escapes and quotes that the delimiter re-scan took for a delimiter; see the c15_history_ theorems.) *)
 From Gv Require Import lib.Bytes lib.Gql C15.Unicode C15.Model C15.Spec C15.Diag C15.ProofsStr
-  C15.ProofsBlock C15.ProofsRescan C15.ProofsJson C15.ProofsFwd C15.History C15.Proofs.
+  C15.ProofsBlock C15.ProofsRescan C15.ProofsJson C15.ProofsFwd C15.History C15.Proofs C15.Defaults C15.ProofsDefaults.
+From Gv Require lib.Json C06.Model.
 From Coq Require Import ZArith.
 
 Theorem c15_vars_valid_json_partial : forall vs e l,
@@ -118,3 +119,50 @@ Theorem c15_history_quote_next_to_whitespace_refuted_before_fix :
             /\ dval_eqb d (gql_denote [] (VStr [32; 34; 32; 32; 97] true)) = false.
 Proof. exact hist_quote_ws_differs. Qed.
 Print Assumptions c15_history_quote_next_to_whitespace_refuted_before_fix.
+
+(* ---- input-field default injection (inject_input_default_values.go; the tree-level model of that code is C06's,
+   C06.Model.inject, whose "present" test is presence of the key).  A member the client supplied is never replaced
+   by a schema default: after processObjectOrListInput on an object of ANY type, every atomic member -- the edge
+   value of each JSON kind: "" 0 false null [] as well as every other string / number / boolean -- is still there
+   with the supplied value ... *)
+Theorem c15_supplied_field_not_defaulted : forall q S reparse fuel t ms k x r b,
+  C06.Model.q_inject_reparse q = false ->
+  lib.Json.obj_get k ms = Some x -> atomic_value x = true ->
+  C06.Model.inject q S reparse fuel t (lib.Json.JObj ms) = C06.Model.IOk r b ->
+  lib.Json.jget k r = Some x.
+Proof. exact supplied_field_not_defaulted_proof. Qed.
+Print Assumptions c15_supplied_field_not_defaulted.
+
+(* ... and in recursiveInjectInputFields also any value at all ({} and non-empty containers too) of a field of
+   scalar / enum / custom scalar type *)
+Theorem c15_supplied_scalar_field_not_defaulted : forall q S reparse fuel fs ms k x r b,
+  C06.Model.q_inject_reparse q = false ->
+  lib.Json.obj_get k ms = Some x ->
+  (atomic_value x = true \/
+   forall f, In f fs -> lib.Gql.iv_name f = k -> C06.Model.is_scalar_or_enum S (lib.Gql.iv_type f) = true) ->
+  C06.Model.inject_fields q S (C06.Model.inject q S reparse fuel) (Some fs) (lib.Json.JObj ms) = C06.Model.IOk r b ->
+  lib.Json.jget k r = Some x.
+Proof. exact supplied_field_not_defaulted_fields. Qed.
+Print Assumptions c15_supplied_scalar_field_not_defaulted.
+
+(* the reading "present = jsonparser.Get returned a non-empty slice" (seeded/C15-m5) is refuted: Get returns the
+   unquoted content of a string, the member "" looks absent and the default is written over it *)
+Theorem c15_nonempty_means_present_refuted :
+  exists S fs ms k r,
+    lib.Json.obj_get k ms = Some (lib.Json.JStr []) /\
+    inject_fields_nonempty_present C06.Model.go_quirks S (C06.Model.inject C06.Model.go_quirks S (fun _ => None) 8) fs (lib.Json.JObj ms)
+      = C06.Model.IOk r true /\
+    lib.Json.jget k r = Some (lib.Json.JStr t_anonymous) /\
+    C06.Model.inject_fields C06.Model.go_quirks S (C06.Model.inject C06.Model.go_quirks S (fun _ => None) 8) (Some fs) (lib.Json.JObj ms)
+      = C06.Model.IOk (lib.Json.JObj ms) false.
+Proof. exact nonempty_present_overwrites. Qed.
+Print Assumptions c15_nonempty_means_present_refuted.
+
+(* the specification the check evaluates on Input.Variables and on the upstream request (Defaults.spec_defaults)
+   keeps a supplied member of scalar type whatever its value *)
+Theorem c15_spec_supplied_member_kept : forall fuel S n fs m k x f,
+  ischema_get n S = Some fs -> dobj_get k m = Some x ->
+  find_field k fs = Some f -> if_type f = IScalar ->
+  exists m', spec_defaults (Datatypes.S fuel) S (IObj n) (DObj m) = DObj m' /\ dobj_get k m' = Some x.
+Proof. exact spec_supplied_member_kept. Qed.
+Print Assumptions c15_spec_supplied_member_kept.
